@@ -522,6 +522,24 @@ class RealEncoder(AbstractItemEncoder):
 class SequenceEncoder(AbstractItemEncoder):
     omitEmptyOptionals = False
 
+    @staticmethod
+    def _getComponents(value, namedTypes):
+        """Iterate over components without instantiating the absent ones.
+
+        Encoding must not modify the value being encoded: an OPTIONAL or
+        DEFAULT component that has never been set is reported as `None`
+        rather than being created as a side effect of reading it.
+        """
+        for idx, namedType in enumerate(namedTypes.namedTypes):
+            component = value.getComponentByPosition(
+                idx, default=None, instantiate=False)
+
+            if component is None and not (
+                    namedType.isOptional or namedType.isDefaulted):
+                component = value.getComponentByPosition(idx)
+
+            yield component
+
     # TODO: handling three flavors of input is too much -- split over codecs
 
     def encodeValue(self, value, asn1Spec, encodeFun, **options):
@@ -543,9 +561,15 @@ class SequenceEncoder(AbstractItemEncoder):
 
             namedTypes = value.componentType
 
-            for idx, component in enumerate(value.values()):
+            for idx, component in enumerate(
+                    namedTypes and self._getComponents(value, namedTypes) or
+                    value.values()):
                 if namedTypes:
                     namedType = namedTypes[idx]
+
+                    if component is None:
+                        # absent OPTIONAL or DEFAULT component
+                        continue
 
                     if namedType.isOptional and not component.isValue:
                         if LOG:
